@@ -64,7 +64,9 @@ theorem runFilter_ber : ∀ (t : Tree) (d : Nat), bdd t →
     simp only [preorder, runFilter, bdd] at hb ⊢
     rw [berFilter_eq id hb.1 hb.2]
     simp only [allOS]
-    by_cases h : (id.cls == 0 && id.num == 4) = true <;> simp [h, runFilter]
+    by_cases h : (id.cls == 0 && id.num == 4) = true
+    · simp [h]
+    · simp [h]
   | .cons id _ kids, d, hb => by
     simp only [bdd] at hb
     simp only [preorder, runFilter]
@@ -86,5 +88,1314 @@ theorem runFilter_berL : ∀ (ts : List Tree) (d : Nat), bddL ts →
       exact runFilter_berL ts d hb.2
     · simp [h]
 end
+
+/-! ### trees produced by the grammar: identifiers in range, depth below the fuel -/
+
+theorem parse_good (m : M) : ∀ f : Nat,
+    (∀ v t rest, parseValue m f v = some (t, rest) → bdd t ∧ depth t + 1 ≤ f) ∧
+    (∀ v ts, parseAll m f v = some ts → bddL ts ∧ depthL ts + 1 ≤ f) ∧
+    (∀ v ts rest, parseUntilEoc m f v = some (ts, rest) → bddL ts ∧ depthL ts + 1 ≤ f) := by
+  intro f
+  induction f with
+  | zero =>
+    exact ⟨fun v t rest h => by simp [parseValue] at h, fun v ts h => by simp [parseAll] at h,
+      fun v ts rest h => by simp [parseUntilEoc] at h⟩
+  | succ f ih =>
+    obtain ⟨ihV, ihA, ihE⟩ := ih
+    refine ⟨?_, ?_, ?_⟩
+    · intro v t rest h
+      simp only [parseValue] at h
+      cases hr : readIdent v with
+      | none => simp [hr] at h
+      | some r =>
+        obtain ⟨id, k⟩ := r
+        obtain ⟨hc, hn, _⟩ := C12.readIdent_bounds v id k hr
+        simp only [hr] at h
+        split at h
+        · simp at h
+        · cases hl : readLen m.isBer (v.drop k) with
+          | none => simp [hl] at h
+          | some r2 =>
+            obtain ⟨len?, kl⟩ := r2
+            simp only [hl] at h
+            cases len? with
+            | some n =>
+              simp only at h
+              split at h
+              · simp at h
+              · split at h
+                · simp only [Option.some.injEq, Prod.mk.injEq] at h
+                  obtain ⟨rfl, _⟩ := h
+                  exact ⟨⟨hc, hn⟩, by simp [depth]⟩
+                · split at h
+                  · simp at h
+                  · cases hp : parseAll m f ((v.drop (k + kl)).take n) with
+                    | none => simp [hp] at h
+                    | some kids =>
+                      simp only [hp, Option.some.injEq, Prod.mk.injEq] at h
+                      obtain ⟨rfl, _⟩ := h
+                      obtain ⟨h1, h2⟩ := ihA _ _ hp
+                      exact ⟨⟨⟨hc, hn⟩, h1⟩, by simp only [depth]; omega⟩
+            | none =>
+              simp only at h
+              split at h
+              · simp at h
+              · cases hp : parseUntilEoc m f (v.drop (k + kl)) with
+                | none => simp [hp] at h
+                | some r3 =>
+                  obtain ⟨kids, rest'⟩ := r3
+                  simp only [hp, Option.some.injEq, Prod.mk.injEq] at h
+                  obtain ⟨rfl, _⟩ := h
+                  obtain ⟨h1, h2⟩ := ihE _ _ _ hp
+                  exact ⟨⟨⟨hc, hn⟩, h1⟩, by simp only [depth]; omega⟩
+    · intro v ts h
+      simp only [parseAll] at h
+      split at h
+      · simp only [Option.some.injEq] at h
+        subst h
+        exact ⟨trivial, by simp [depthL]⟩
+      · cases hp : parseValue m f v with
+        | none => simp [hp] at h
+        | some r =>
+          obtain ⟨t, rest⟩ := r
+          simp only [hp] at h
+          cases hq : parseAll m f rest with
+          | none => simp [hq] at h
+          | some ts' =>
+            simp only [hq, Option.map, Option.some.injEq] at h
+            subst h
+            obtain ⟨a1, a2⟩ := ihV _ _ _ hp
+            obtain ⟨b1, b2⟩ := ihA _ _ hq
+            exact ⟨⟨a1, b1⟩, by simp only [depthL]; omega⟩
+    · intro v ts rest h
+      simp only [parseUntilEoc] at h
+      cases hr : readIdent v with
+      | none => simp [hr] at h
+      | some r =>
+        obtain ⟨id, k⟩ := r
+        simp only [hr] at h
+        split at h
+        · split at h
+          · simp at h
+          · cases hl : readLen m.isBer (v.drop k) with
+            | none => simp [hl] at h
+            | some r2 =>
+              obtain ⟨len?, kl⟩ := r2
+              simp only [hl] at h
+              split at h
+              · simp only [Option.some.injEq, Prod.mk.injEq] at h
+                obtain ⟨rfl, _⟩ := h
+                exact ⟨trivial, by simp [depthL]⟩
+              · simp at h
+        · cases hp : parseValue m f v with
+          | none => simp [hp] at h
+          | some r2 =>
+            obtain ⟨t, rest1⟩ := r2
+            simp only [hp] at h
+            cases hq : parseUntilEoc m f rest1 with
+            | none => simp [hq] at h
+            | some r3 =>
+              obtain ⟨ts', rest2⟩ := r3
+              simp only [hq, Option.some.injEq, Prod.mk.injEq] at h
+              obtain ⟨rfl, _⟩ := h
+              obtain ⟨a1, a2⟩ := ihV _ _ _ hp
+              obtain ⟨b1, b2⟩ := ihE _ _ _ hq
+              exact ⟨⟨a1, b1⟩, by simp only [depthL]; omega⟩
+
+/-! ### `allOS` against the reference content `Spec.osContent` -/
+
+theorem allOS_of_osContent : ∀ (g : Nat) (t : Tree), (osContent 4 g t).isSome = true → allOS t = true := by
+  intro g
+  induction g with
+  | zero =>
+    intro t h
+    cases t with
+    | prim id c =>
+      obtain ⟨h0, h4⟩ := C16.osContent_prim_some 0 id c h
+      simp [allOS, h0, h4]
+    | cons id b kids => simp [osContent] at h
+  | succ g ih =>
+    intro t h
+    cases t with
+    | prim id c =>
+      obtain ⟨h0, h4⟩ := C16.osContent_prim_some _ id c h
+      simp [allOS, h0, h4]
+    | cons id b kids =>
+      obtain ⟨g', hg, h0, h4, hk⟩ := C16.osContent_cons_some _ id b kids h
+      have hg' : g' = g := by omega
+      subst hg'
+      simp only [allOS, h0, h4, beq_self_eq_true, Bool.and_self, Bool.true_and]
+      simp only [osTrees, List.all_eq_true] at hk
+      clear h
+      induction kids with
+      | nil => rfl
+      | cons k ks ihk =>
+        simp only [allOSL, Bool.and_eq_true]
+        exact ⟨ih k (hk k (by simp)), ihk (fun x hx => hk x (by simp [hx]))⟩
+
+theorem osContent_of_allOS : ∀ (g : Nat) (t : Tree), allOS t = true → depth t ≤ g → (osContent 4 g t).isSome = true := by
+  intro g
+  induction g with
+  | zero =>
+    intro t h hd
+    cases t with
+    | prim id c =>
+      simp only [allOS] at h
+      simp [osContent, h]
+    | cons id b kids => simp [depth] at hd
+  | succ g ih =>
+    intro t h hd
+    cases t with
+    | prim id c =>
+      simp only [allOS] at h
+      simp [osContent, h]
+    | cons id b kids =>
+      simp only [allOS, Bool.and_eq_true] at h
+      simp only [depth] at hd
+      rw [C16.osContent_cons]
+      simp only [h.1]
+      rw [C16.foldl_accStep_all]
+      · rfl
+      · have hk := h.2
+        have hdk : depthL kids ≤ g := by omega
+        clear h hd
+        induction kids with
+        | nil => intro k hk'; simp at hk'
+        | cons k ks ihk =>
+          simp only [allOSL, Bool.and_eq_true] at hk
+          simp only [depthL] at hdk
+          intro x hx
+          simp only [List.mem_cons] at hx
+          rcases hx with rfl | hx
+          · exact ih _ hk.1 (by omega)
+          · exact ihk hk.2 (by omega) x hx
+
+/-- for a list of trees within depth `g`: `C16.osTrees` is `allOSL` -/
+theorem osTrees_iff_allOSL (g : Nat) : ∀ (ts : List Tree), depthL ts ≤ g → (osTrees g ts = allOSL ts) := by
+  intro ts
+  induction ts with
+  | nil => intro _; rfl
+  | cons t ts ih =>
+    intro hd
+    simp only [depthL] at hd
+    rw [C16.osTrees_cons, allOSL, ih (by omega)]
+    congr 1
+    cases ha : allOS t with
+    | true => exact osContent_of_allOS g t ha (by omega)
+    | false =>
+      cases hc : (osContent 4 g t).isSome with
+      | false => rfl
+      | true => rw [allOS_of_osContent g t hc] at ha; cases ha
+
+/-- **`allOS` is `Spec.osContent` being defined**, for the tree of a whole constructed value whose
+    kids the grammar produced with fuel `f` -/
+theorem allOSL_iff_osContent (m : M) (f : Nat) (v : Bytes) (ts : List Tree) (indef : Bool)
+    (hp : parseAll m f v = some ts ∨ ∃ rest, parseUntilEoc m f v = some (ts, rest)) :
+    allOSL ts = true ↔ osContent 4 (f + 1) (.cons C16.cOS indef ts) ≠ none := by
+  have hd : depthL ts ≤ f := by
+    rcases hp with hp | ⟨rest, hp⟩
+    · have := ((parse_good m f).2.1 v ts hp).2; omega
+    · have := ((parse_good m f).2.2 v ts rest hp).2; omega
+  have e : allOS (.cons C16.cOS indef ts) = allOSL ts := by simp [allOS]
+  constructor
+  · intro h
+    have := osContent_of_allOS (f + 1) (.cons C16.cOS indef ts) (by rw [e]; exact h) (by simp only [depth]; omega)
+    intro hn; rw [hn] at this; cases this
+  · intro h
+    rw [← e]
+    apply allOS_of_osContent (f + 1)
+    cases hc : osContent 4 (f + 1) (.cons C16.cOS indef ts) with
+    | none => exact absurd hc h
+    | some x => rfl
+
+/-! ## 2. the loop of `take_constructed_ber` -/
+
+theorem run_berLoop_succ (c : Cons) (inner N : Nat) (g : G0) :
+    runG0 (OS.berLoop c inner (N + 1)) g =
+      match runG0 (skipOpt c OS.berFilter () inner) g with
+      | .ok ((some (), c', _), g') => runG0 (OS.berLoop c' inner N) g'
+      | .ok ((none, c', _), g') => .ok (c', g')
+      | .error e => .error e := by
+  rw [OS.berLoop]
+  simp only [runG0_bind]
+  cases runG0 (skipOpt c OS.berFilter () inner) g with
+  | error e => rfl
+  | ok x =>
+    obtain ⟨⟨r, c', u⟩, g'⟩ := x
+    cases r with
+    | none => rfl
+    | some u' => rfl
+
+theorem berLoop_zero (c : Cons) (inner : Nat) (g : G0) : runG0 (OS.berLoop c inner 0) g = .error .fuel := rfl
+
+/-- one round on a value the grammar sees: consumed if it is all OCTET STRING, a content error if not -/
+theorem ber_round_value (c : Cons) (g : G0) (hf : g.frames = []) (h1 : c.state ≠ .done)
+    (h2 : ¬ (c.state = .definite ∧ g.limit = none)) (f : Nat) (t : Tree) (rest : Bytes)
+    (hp : parseValue (toM c.mode) f g.view = some (t, rest)) (inner : Nat) (hN : hdrs t ≤ inner) :
+    runG0 (skipOpt c OS.berFilter () inner) g =
+      if allOS t = true then .ok ((some (), c, ()), g.adv (g.view.length - rest.length))
+      else .error .content := by
+  rw [C10.skip_value c OS.berFilter () g hf h1 h2 f t rest hp inner hN,
+    runFilter_ber t 0 ((parse_good (toM c.mode) f).1 _ _ _ hp).1]
+  by_cases ha : allOS t = true
+  · simp only [ha, if_true, thenK]
+  · simp only [ha, Bool.false_eq_true, if_false, thenK]
+
+/-- one round where no value is left -/
+theorem ber_round_absent (c : Cons) (g : G0) (hf : g.frames = []) (inner : Nat) (hN : 1 ≤ inner) (c' : Cons) (g' : G0)
+    (h : absentF c g = some (c', g')) : runG0 (skipOpt c OS.berFilter () inner) g = .ok ((none, c', ()), g') :=
+  (C10.skip_absent_iff c OS.berFilter () g hf inner hN c' () g').mpr ⟨h, rfl⟩
+
+/-- **the loop on the content of a definite-length value**: if the `l` content octets are a sequence
+    of values `ts` (all there), the loop consumes them one by one while they are all-OCTET-STRING
+    and stops at limit 0 with the `Constructed` unchanged; the first value containing a foreign tag
+    (at any depth) ends it with a content error.  Budget: `inner` ≥ the headers of each value,
+    `N` > the number of values. -/
+theorem berLoop_def : ∀ (f : Nat) (m : Mode) (g : G0) (l inner N : Nat) (ts : List Tree), g.frames = [] →
+    g.limit = some l → l ≤ g.data.length → parseAll (toM m) f g.view = some ts →
+    (∀ t ∈ ts, hdrs t ≤ inner) → 1 ≤ inner → ts.length < N →
+    runG0 (OS.berLoop ⟨.definite, m⟩ inner N) g =
+      if allOSL ts = true then .ok (⟨.definite, m⟩, ⟨g.data.drop l, some 0, []⟩) else .error .content := by
+  intro f
+  induction f with
+  | zero => intro m g l inner N ts _ _ _ hp; simp [parseAll] at hp
+  | succ f ih =>
+    intro m g l inner N ts hf hl hle hp hI hI1 hN
+    obtain ⟨N0, rfl⟩ : ∃ N0, N = N0 + 1 := ⟨N - 1, by omega⟩
+    rw [run_berLoop_succ]
+    simp only [parseAll] at hp
+    by_cases hemp : g.view.isEmpty = true
+    · have hl0 := C10.view_empty_limit g l hl hle hemp
+      subst hl0
+      simp only [hemp, if_true, Option.some.injEq] at hp
+      subst hp
+      have hab : absentF ⟨.definite, m⟩ g = some (⟨.definite, m⟩, g) := by
+        unfold absentF; simp [hl]
+      rw [ber_round_absent _ g hf inner hI1 _ _ hab]
+      have : g = ⟨g.data.drop 0, some 0, []⟩ := by
+        cases g with
+        | mk d l fr => simp at hf hl; subst hf; subst hl; rfl
+      simp only [allOSL, if_true]
+      rw [← this]
+    · simp only [hemp, Bool.false_eq_true, if_false] at hp
+      cases hpv : parseValue (toM m) f g.view with
+      | none => simp [hpv] at hp
+      | some r =>
+        obtain ⟨t, rest1⟩ := r
+        simp only [hpv] at hp
+        cases hpa : parseAll (toM m) f rest1 with
+        | none => simp [hpa] at hp
+        | some ts' =>
+          simp only [hpa, Option.map, Option.some.injEq] at hp
+          subst hp
+          simp only [List.length_cons] at hN
+          obtain ⟨n1, hn1, hr1⟩ := (suffix_lemma (toM m) f).1 _ _ _ hpv
+          have hlen : g.view.length - rest1.length = n1 := by
+            rw [hr1, List.length_drop]; omega
+          rw [ber_round_value ⟨.definite, m⟩ g hf (by simp) (by simp [hl]) f t rest1 hpv inner (hI t (by simp)), hlen]
+          by_cases ha : allOS t = true
+          · simp only [ha, if_true, allOSL, Bool.true_and]
+            have hvl := view_le_limit g l hl
+            have hvn : (g.adv n1).view = rest1 := by rw [G0.adv_view g n1 hn1, hr1]
+            rw [ih m (g.adv n1) (l - n1) inner N0 ts' rfl (by show g.limit.map (· - n1) = some (l - n1); rw [hl]; rfl)
+              (by show l - n1 ≤ (g.data.drop n1).length; rw [List.length_drop]; omega)
+              (by rw [hvn]; exact hpa) (fun t' h' => hI t' (by simp [h'])) hI1 (by omega)]
+            have hd : (g.adv n1).data.drop (l - n1) = g.data.drop l := by
+              show (g.data.drop n1).drop (l - n1) = g.data.drop l
+              rw [List.drop_drop]; congr 1; omega
+            rw [hd]
+          · simp [ha, allOSL]
+
+/-- **the loop on the content of an indefinite-length value**: if the view is values `ts` followed
+    by end-of-contents, the loop consumes the values while they are all-OCTET-STRING, then the
+    end-of-contents octets, and stops with state `done` behind them; a value containing a foreign
+    tag ends it with a content error. -/
+theorem berLoop_indef : ∀ (f : Nat) (m : Mode) (g : G0) (inner N : Nat) (ts : List Tree) (rest : Bytes), g.frames = [] →
+    parseUntilEoc (toM m) f g.view = some (ts, rest) →
+    (∀ t ∈ ts, hdrs t ≤ inner) → 1 ≤ inner → ts.length < N →
+    runG0 (OS.berLoop ⟨.indefinite, m⟩ inner N) g =
+      if allOSL ts = true then .ok (⟨.done, m⟩, g.adv (g.view.length - rest.length)) else .error .content := by
+  intro f
+  induction f with
+  | zero => intro m g inner N ts rest _ hp; simp [parseUntilEoc] at hp
+  | succ f ih =>
+    intro m g inner N ts rest hf hp hI hI1 hN
+    obtain ⟨N0, rfl⟩ : ∃ N0, N = N0 + 1 := ⟨N - 1, by omega⟩
+    rw [run_berLoop_succ]
+    simp only [parseUntilEoc] at hp
+    cases hri : readIdent g.view with
+    | none => simp [hri] at hp
+    | some r =>
+      obtain ⟨id, k⟩ := r
+      simp only [hri] at hp
+      by_cases he : isEocIdent id = true
+      · simp only [he, if_true] at hp
+        by_cases hcn : id.constructed = true
+        · simp [hcn] at hp
+        · simp only [hcn, Bool.false_eq_true, if_false] at hp
+          cases hrl : readLen (toM m).isBer (g.view.drop k) with
+          | none => simp [hrl] at hp
+          | some r2 =>
+            obtain ⟨len?, kl⟩ := r2
+            rw [hrl] at hp
+            obtain ⟨hH, hv2, hsum, hk1⟩ := C10.headerF_of m g id k len? kl hri hrl
+            cases len? with
+            | none => simp at hp
+            | some n =>
+              cases n with
+              | succ n' => simp at hp
+              | zero =>
+                simp only [Option.some.injEq, Prod.mk.injEq] at hp
+                obtain ⟨hk, hrest⟩ := hp
+                subst hk; subst hrest
+                have hab : absentF ⟨.indefinite, m⟩ g = some (⟨.done, m⟩, g.adv (k + kl)) := by
+                  unfold absentF
+                  simp [hH, he, hcn]
+                rw [ber_round_absent _ g hf inner hI1 _ _ hab]
+                simp only [List.length_drop, allOSL, if_true]
+                have : g.view.length - (g.view.length - (k + kl)) = k + kl := by omega
+                rw [this]
+      · have he' : isEocIdent id = false := by simpa using he
+        simp only [he', Bool.false_eq_true, if_false] at hp
+        cases hpv : parseValue (toM m) f g.view with
+        | none => simp [hpv] at hp
+        | some r =>
+          obtain ⟨t, rest1⟩ := r
+          simp only [hpv] at hp
+          cases hpe : parseUntilEoc (toM m) f rest1 with
+          | none => simp [hpe] at hp
+          | some r3 =>
+            obtain ⟨ts', rest'⟩ := r3
+            simp only [hpe, Option.some.injEq, Prod.mk.injEq] at hp
+            obtain ⟨hk, hrest⟩ := hp
+            subst hk; subst hrest
+            simp only [List.length_cons] at hN
+            obtain ⟨n1, hn1, hr1⟩ := (suffix_lemma (toM m) f).1 _ _ _ hpv
+            obtain ⟨n2, hn2, hr2⟩ := (suffix_lemma (toM m) f).2 _ _ _ hpe
+            have hlen : g.view.length - rest1.length = n1 := by
+              rw [hr1, List.length_drop]; omega
+            rw [ber_round_value ⟨.indefinite, m⟩ g hf (by simp) (by simp) f t rest1 hpv inner (hI t (by simp)), hlen]
+            by_cases ha : allOS t = true
+            · simp only [ha, if_true, allOSL, Bool.true_and]
+              have hvn : (g.adv n1).view = rest1 := by rw [G0.adv_view g n1 hn1, hr1]
+              rw [ih m (g.adv n1) inner N0 ts' rest' rfl (by rw [hvn]; exact hpe)
+                (fun t' h' => hI t' (by simp [h'])) hI1 (by omega), G0.adv_adv, hvn]
+              have e : n1 + (rest1.length - rest'.length) = g.view.length - rest'.length := by
+                rw [hr2, hr1] at *
+                simp only [List.length_drop] at *
+                omega
+              rw [e]
+            · simp [ha, allOSL]
+
+/-! ### converse: whatever the loop accepts is a sequence of all-OCTET-STRING values -/
+
+/-- **Converse for the loop**, any state, any mode, any source without open capture: whenever it
+    returns, the grammar accepts the remaining content of the `Constructed` (`C10.specAll`: definite —
+    the octets up to the limit, all present; indefinite — values then end-of-contents) as trees that
+    are all OCTET STRING at every depth, state and source are where the grammar ends, and the
+    budgets sufficed. -/
+theorem berLoop_inv (inner : Nat) : ∀ (N : Nat) (c : Cons) (g : G0) (c' : Cons) (g' : G0), g.frames = [] →
+    runG0 (OS.berLoop c inner N) g = .ok (c', g') →
+    ∃ f ts, specAll c f g = some ((ts, c'), g') ∧ allOSL ts = true ∧ (∀ t ∈ ts, hdrs t ≤ inner) ∧ ts.length < N := by
+  intro N
+  induction N with
+  | zero => intro c g c' g' _ h; cases h
+  | succ N ih =>
+    intro c g c' g' hf h
+    rw [run_berLoop_succ] at h
+    cases hs : runG0 (skipOpt c OS.berFilter () inner) g with
+    | error e => rw [hs] at h; cases h
+    | ok x =>
+      obtain ⟨⟨r, c1, u⟩, g1⟩ := x
+      rw [hs] at h
+      cases r with
+      | none =>
+        simp only [Except.ok.injEq, Prod.mk.injEq] at h
+        obtain ⟨rfl, rfl⟩ := h
+        obtain ⟨hab, _⟩ := C10.skip_absent_inv c OS.berFilter () g hf inner c1 u g1 hs
+        exact ⟨1, [], C10.absent_specAll c g hf c1 g1 hab, rfl, fun t ht => by simp at ht, by simp⟩
+      | some u' =>
+        simp only at h
+        obtain ⟨f, t, rest, hp, hN, hc, hg, hfil, h1, h2⟩ := C10.skip_value_inv c OS.berFilter () g hf inner c1 u g1 hs
+        subst hc; subst hg
+        have ha : allOS t = true := by
+          rw [runFilter_ber t 0 ((parse_good (toM c1.mode) f).1 _ _ _ hp).1] at hfil
+          by_cases ha : allOS t = true
+          · exact ha
+          · simp [ha] at hfil
+        obtain ⟨f2, ts2, hsp, hall, hI, hlen⟩ := ih c1 _ c' g' rfl h
+        refine ⟨max f f2 + 1, t :: ts2, C10.specAll_cons c1 g f f2 t rest ts2 c' g' h1 hp hsp, ?_, ?_, ?_⟩
+        · simp [allOSL, ha, hall]
+        · intro t' ht'
+          simp only [List.mem_cons] at ht'
+          rcases ht' with rfl | ht'
+          · exact hN
+          · exact hI t' ht'
+        · simp only [List.length_cons]; omega
+
+/-! ### no panic: `skip_opt` and the loop fail only with a content error or for lack of fuel -/
+
+section nopanic
+variable {σ : Type} (c : Cons) (filter : σ → Tag → Bool → Nat → Option σ)
+
+theorem afterK_nopanic (N : Nat)
+    (ih : ∀ (stack : C10.Stack) (st : σ) (g : G0) (e : Err), g.frames = [] →
+      runG0 (skipLoop c filter N stack st) g = .error e → e = .content ∨ e = .fuel) :
+    ∀ (stack : C10.Stack) (st : σ) (g : G0) (e : Err), g.frames = [] →
+      runG0 (C10.afterK c filter N stack st) g = .error e → e = .content ∨ e = .fuel := by
+  intro stack
+  induction stack with
+  | nil => intro st g e _ h; rw [C10.run_afterK_nil] at h; cases h
+  | cons top rest ihs =>
+    intro st g e hf h
+    cases top with
+    | none =>
+      rw [C10.run_afterK_indef] at h
+      by_cases hl : g.limit = some 0
+      · simp only [hl, if_true, Except.error.injEq] at h; exact Or.inl h.symm
+      · simp only [hl, if_false] at h; exact ih _ _ _ _ hf h
+    | some lim =>
+      rw [C10.run_afterK_def] at h
+      by_cases hl : g.limit = some 0
+      · simp only [hl, if_true] at h; exact ihs st { g with limit := lim } e hf h
+      · simp only [hl, if_false] at h; exact ih _ _ _ _ hf h
+
+theorem skipLoop_nopanic : ∀ (N : Nat) (stack : C10.Stack) (st : σ) (g : G0) (e : Err), g.frames = [] →
+    runG0 (skipLoop c filter N stack st) g = .error e → e = .content ∨ e = .fuel := by
+  intro N
+  induction N with
+  | zero =>
+    intro stack st g e _ h
+    simp only [skipLoop, runG0_fail, Except.error.injEq] at h
+    exact Or.inr h.symm
+  | succ N ih =>
+    intro stack st g e hf h
+    have hA := afterK_nopanic c filter N ih
+    rw [C10.skip_step c filter N stack st g hf] at h
+    unfold C10.stepF at h
+    split at h
+    · cases h
+    · cases hH : C02.headerF c.mode g with
+      | none => simp only [hH, Except.error.injEq] at h; exact Or.inl h.symm
+      | some r =>
+        obtain ⟨⟨id, len?⟩, g2⟩ := r
+        obtain ⟨k, kl, _, _, hg2, _⟩ := C10.headerF_inv _ _ _ _ _ hH
+        have hf2 : g2.frames = [] := by rw [hg2]; rfl
+        simp only [hH] at h
+        unfold C10.sbodyF at h
+        have hc : ∀ e', (Except.error e' : Res ((Option Unit × Cons × σ) × G0)) = .error e → e' = .content → e = .content ∨ e = .fuel := by
+          intro e' h1 h2; cases h1; exact Or.inl h2
+        repeat' split at h
+        all_goals first
+          | (cases h; done)
+          | exact hc _ h rfl
+          | (refine hA _ _ _ _ ?_ h; first | exact hf2 | rfl)
+          | (refine ih _ _ _ _ ?_ h; first | exact hf2 | rfl)
+
+/-- **`skip_opt` never panics** on a source without open capture, provided a definite `Constructed`
+    sits on a limited source (as it always does): every failure is a content error or the budget -/
+theorem skipOpt_nopanic (st : σ) (N : Nat) (g : G0) (e : Err) (hf : g.frames = [])
+    (hd : c.state = .definite → g.limit ≠ none)
+    (h : runG0 (skipOpt c filter st N) g = .error e) : e = .content ∨ e = .fuel := by
+  rw [C10.run_skipOpt] at h
+  by_cases h1 : c.state = .done
+  · simp [h1] at h
+  · by_cases h2 : c.state = .definite ∧ g.limit = none
+    · exact absurd h2.2 (hd h2.1)
+    · by_cases h3 : c.state = .definite ∧ g.limit = some 0
+      · simp [h3] at h
+      · simp only [h1, h2, h3, if_false] at h
+        exact skipLoop_nopanic c filter N [] st g e hf h
+end nopanic
+
+/-- **the loop never panics** (same proviso) -/
+theorem berLoop_nopanic (inner : Nat) : ∀ (N : Nat) (c : Cons) (g : G0) (e : Err), g.frames = [] →
+    (c.state = .definite → g.limit ≠ none) →
+    runG0 (OS.berLoop c inner N) g = .error e → e = .content ∨ e = .fuel := by
+  intro N
+  induction N with
+  | zero => intro c g e _ _ h; rw [berLoop_zero] at h; cases h; exact Or.inr rfl
+  | succ N ih =>
+    intro c g e hf hd h
+    rw [run_berLoop_succ] at h
+    cases hs : runG0 (skipOpt c OS.berFilter () inner) g with
+    | error e' =>
+      rw [hs] at h
+      simp only [Except.error.injEq] at h
+      subst h
+      exact skipOpt_nopanic c OS.berFilter () inner g _ hf hd hs
+    | ok x =>
+      obtain ⟨⟨r, c1, u⟩, g1⟩ := x
+      rw [hs] at h
+      cases r with
+      | none => cases h
+      | some u' =>
+        simp only at h
+        obtain ⟨f, t, rest, hp, hN, hc, hg, hfil, h1, h2⟩ := C10.skip_value_inv c OS.berFilter () g hf inner c1 u g1 hs
+        subst hc; subst hg
+        refine ih c1 _ e rfl ?_ h
+        intro hdef
+        have := hd hdef
+        show g.limit.map _ ≠ none
+        cases hl : g.limit with
+        | none => exact absurd hl this
+        | some l => simp
+
+/-! ## 3. the grammar only looks at the octets it consumes -/
+
+theorem readIdent_take (v : Bytes) (id : Ident) (k : Nat) (h : readIdent v = some (id, k)) :
+    readIdent (v.take k) = some (id, k) := by
+  match v, h with
+  | [], h => simp [readIdent] at h
+  | [b0], h =>
+    by_cases h0 : b0.toNat % 32 = 31
+    · simp [readIdent, h0] at h
+    · simp [readIdent, h0] at h; obtain ⟨rfl, rfl⟩ := h; simp [readIdent, h0]
+  | b0 :: d1 :: r, h =>
+    by_cases h0 : b0.toNat % 32 = 31
+    · by_cases h1 : d1.toNat < 128
+      · by_cases h1' : 31 ≤ d1.toNat
+        · simp [readIdent, h0, h1, h1'] at h; obtain ⟨rfl, rfl⟩ := h; simp [readIdent, h0, h1, h1']
+        · simp [readIdent, h0, h1, h1'] at h
+      · by_cases h2 : d1.toNat = 128
+        · simp [readIdent, h0, h2] at h
+        · match r, h with
+          | [], h => simp [readIdent, h0, h1, h2] at h
+          | d2 :: r2, h =>
+            by_cases h3 : d2.toNat < 128
+            · simp [readIdent, h0, h1, h2, h3] at h; obtain ⟨rfl, rfl⟩ := h; simp [readIdent, h0, h1, h2, h3]
+            · match r2, h with
+              | [], h => simp [readIdent, h0, h1, h2, h3] at h
+              | d3 :: r3, h =>
+                by_cases h4 : d3.toNat < 128
+                · simp [readIdent, h0, h1, h2, h3, h4] at h; obtain ⟨rfl, rfl⟩ := h; simp [readIdent, h0, h1, h2, h3, h4]
+                · simp [readIdent, h0, h1, h2, h3, h4] at h
+    · simp [readIdent, h0] at h; obtain ⟨rfl, rfl⟩ := h; simp [readIdent, h0]
+
+theorem readLen_take (ber : Bool) (v : Bytes) (x : Option Nat) (k : Nat) (h : readLen ber v = some (x, k)) :
+    readLen ber (v.take k) = some (x, k) := by
+  cases v with
+  | nil => simp [readLen] at h
+  | cons b rest =>
+    simp only [readLen] at h
+    split at h
+    · rename_i h0
+      simp only [Option.some.injEq, Prod.mk.injEq] at h
+      obtain ⟨rfl, rfl⟩ := h
+      simp [readLen, h0]
+    · rename_i h0
+      split at h
+      · rename_i h1
+        simp only [Option.some.injEq, Prod.mk.injEq] at h
+        obtain ⟨rfl, rfl⟩ := h
+        simp [readLen, h1]
+      · rename_i h1
+        split at h
+        · simp at h
+        · rename_i h2
+          split at h
+          · simp at h
+          · rename_i h3
+            have hk : k = 1 + (b.toNat - 128) := by
+              split at h
+              · simp at h; exact h.2.symm
+              · split at h
+                · simp at h; exact h.2.symm
+                · simp at h
+            rw [hk]
+            have e : (b :: rest).take (1 + (b.toNat - 128)) = b :: rest.take (b.toNat - 128) := by
+              rw [Nat.add_comm]; rfl
+            have hl : ¬ (rest.take (b.toNat - 128)).length < b.toNat - 128 := by
+              simp only [List.length_take]; omega
+            rw [e]
+            simp only [readLen]
+            simp only [h0, if_false]
+            simp only [h1, if_false]
+            simp only [h2, if_false]
+            simp only [hl, if_false]
+            have tt : List.take (b.toNat - 128) (List.take (b.toNat - 128) rest) = List.take (b.toNat - 128) rest :=
+              List.take_of_length_le (by rw [List.length_take]; omega)
+            rw [tt, h, hk]
+
+theorem parse_ext (m : M) : ∀ f : Nat,
+    (∀ a b t r, parseValue m f a = some (t, r) → parseValue m f (a ++ b) = some (t, r ++ b)) ∧
+    (∀ a b ts r, parseUntilEoc m f a = some (ts, r) → parseUntilEoc m f (a ++ b) = some (ts, r ++ b)) := by
+  intro f
+  induction f with
+  | zero => exact ⟨fun a b t r h => by simp [parseValue] at h, fun a b ts r h => by simp [parseUntilEoc] at h⟩
+  | succ f ih =>
+    obtain ⟨ihV, ihE⟩ := ih
+    constructor
+    · intro a b t r h
+      simp only [parseValue] at h
+      cases hr : readIdent a with
+      | none => simp [hr] at h
+      | some x =>
+        obtain ⟨id, k⟩ := x
+        simp only [hr] at h
+        have hk := C02.readIdent_le a id k hr
+        have hr' := C16.readIdent_append a b id k hr
+        have hd1 : (a ++ b).drop k = a.drop k ++ b := List.drop_append_of_le_length hk
+        by_cases he : isEocIdent id = true
+        · simp [he] at h
+        · simp only [he, Bool.false_eq_true, if_false] at h
+          cases hl : readLen m.isBer (a.drop k) with
+          | none => simp [hl] at h
+          | some y =>
+            obtain ⟨len?, kl⟩ := y
+            simp only [hl] at h
+            have hkl := (readLen_bound _ _ _ _ hl).2
+            simp only [List.length_drop] at hkl
+            have hl' : readLen m.isBer ((a ++ b).drop k) = some (len?, kl) := by
+              rw [hd1]; exact C16.readLen_append _ _ _ _ _ hl
+            have hd2 : (a ++ b).drop (k + kl) = a.drop (k + kl) ++ b := List.drop_append_of_le_length (by omega)
+            cases len? with
+            | some n =>
+              simp only at h
+              by_cases hn : (a.drop (k + kl)).length < n
+              · rw [if_pos hn] at h; cases h
+              · rw [if_neg hn] at h
+                have hn' : ¬ (a.drop (k + kl) ++ b).length < n := by rw [List.length_append]; omega
+                have ht : (a.drop (k + kl) ++ b).take n = (a.drop (k + kl)).take n :=
+                  List.take_append_of_le_length (by omega)
+                have hdd : (a.drop (k + kl) ++ b).drop n = (a.drop (k + kl)).drop n ++ b :=
+                  List.drop_append_of_le_length (by omega)
+                simp only [parseValue, hr', he, Bool.false_eq_true, if_false, hl', hd2, hn', ht, hdd]
+                split at h
+                · rename_i hc
+                  simp only [Option.some.injEq, Prod.mk.injEq] at h
+                  obtain ⟨rfl, rfl⟩ := h
+                  simp only [hc, if_true]
+                · rename_i hc
+                  simp only [hc, Bool.false_eq_true, if_false]
+                  split at h
+                  · cases h
+                  · rename_i hcer
+                    simp only [hcer, Bool.false_eq_true, if_false]
+                    cases hp : parseAll m f ((a.drop (k + kl)).take n) with
+                    | none => simp [hp] at h
+                    | some kids =>
+                      simp only [hp, Option.some.injEq, Prod.mk.injEq] at h ⊢
+                      obtain ⟨rfl, rfl⟩ := h
+                      constructor <;> rfl
+            | none =>
+              simp only at h
+              simp only [parseValue, hr', he, Bool.false_eq_true, if_false, hl', hd2]
+              split at h
+              · cases h
+              · rename_i hc
+                simp only [hc, Bool.false_eq_true, if_false]
+                cases hp : parseUntilEoc m f (a.drop (k + kl)) with
+                | none => simp [hp] at h
+                | some z =>
+                  obtain ⟨kids, rest'⟩ := z
+                  simp only [hp, Option.some.injEq, Prod.mk.injEq] at h
+                  obtain ⟨rfl, rfl⟩ := h
+                  simp only [ihE _ b _ _ hp]
+    · intro a b ts r h
+      simp only [parseUntilEoc] at h
+      cases hr : readIdent a with
+      | none => simp [hr] at h
+      | some x =>
+        obtain ⟨id, k⟩ := x
+        simp only [hr] at h
+        have hk := C02.readIdent_le a id k hr
+        have hr' := C16.readIdent_append a b id k hr
+        have hd1 : (a ++ b).drop k = a.drop k ++ b := List.drop_append_of_le_length hk
+        by_cases he : isEocIdent id = true
+        · simp only [he, if_true] at h
+          split at h
+          · cases h
+          · rename_i hc
+            cases hl : readLen m.isBer (a.drop k) with
+            | none => simp [hl] at h
+            | some y =>
+              obtain ⟨len?, kl⟩ := y
+              simp only [hl] at h
+              have hkl := (readLen_bound _ _ _ _ hl).2
+              simp only [List.length_drop] at hkl
+              have hl' : readLen m.isBer ((a ++ b).drop k) = some (len?, kl) := by
+                rw [hd1]; exact C16.readLen_append _ _ _ _ _ hl
+              have hd2 : (a ++ b).drop (k + kl) = a.drop (k + kl) ++ b := List.drop_append_of_le_length (by omega)
+              split at h
+              · rename_i kl' heq
+                simp only [Option.some.injEq, Prod.mk.injEq] at heq h
+                obtain ⟨rfl, rfl⟩ := heq
+                obtain ⟨rfl, rfl⟩ := h
+                simp only [parseUntilEoc, hr', he, if_true, hc, Bool.false_eq_true, if_false, hl', hd2]
+              · cases h
+        · simp only [he, Bool.false_eq_true, if_false] at h
+          cases hp : parseValue m f a with
+          | none => simp [hp] at h
+          | some z =>
+            obtain ⟨t, rest1⟩ := z
+            simp only [hp] at h
+            cases hq : parseUntilEoc m f rest1 with
+            | none => simp [hq] at h
+            | some w =>
+              obtain ⟨ts', rest2⟩ := w
+              simp only [hq, Option.some.injEq, Prod.mk.injEq] at h
+              obtain ⟨rfl, rfl⟩ := h
+              simp only [parseUntilEoc, hr', he, Bool.false_eq_true, if_false, ihV _ b _ _ hp, ihE _ b _ _ hq]
+
+theorem readIdent_of_append (a b : Bytes) (id : Ident) (k : Nat) (h : readIdent (a ++ b) = some (id, k))
+    (hk : k ≤ a.length) : readIdent a = some (id, k) := by
+  have h1 := readIdent_take _ _ _ h
+  rw [List.take_append_of_le_length hk] at h1
+  have h2 := C16.readIdent_append _ (a.drop k) _ _ h1
+  rwa [List.take_append_drop] at h2
+
+theorem readLen_of_append (ber : Bool) (a b : Bytes) (x : Option Nat) (k : Nat) (h : readLen ber (a ++ b) = some (x, k))
+    (hk : k ≤ a.length) : readLen ber a = some (x, k) := by
+  have h1 := readLen_take _ _ _ _ h
+  rw [List.take_append_of_le_length hk] at h1
+  have h2 := C16.readLen_append _ _ (a.drop k) _ _ h1
+  rwa [List.take_append_drop] at h2
+
+theorem parse_restrict (m : M) : ∀ f : Nat,
+    (∀ a b t, parseValue m f (a ++ b) = some (t, b) → parseValue m f a = some (t, [])) ∧
+    (∀ a b ts, parseUntilEoc m f (a ++ b) = some (ts, b) → parseUntilEoc m f a = some (ts, [])) := by
+  intro f
+  induction f with
+  | zero => exact ⟨fun a b t h => by simp [parseValue] at h, fun a b ts h => by simp [parseUntilEoc] at h⟩
+  | succ f ih =>
+    obtain ⟨ihV, ihE⟩ := ih
+    constructor
+    · intro a b t h
+      simp only [parseValue] at h
+      cases hr : readIdent (a ++ b) with
+      | none => simp [hr] at h
+      | some x =>
+        obtain ⟨id, k⟩ := x
+        simp only [hr] at h
+        have hk := C02.readIdent_le _ id k hr
+        by_cases he : isEocIdent id = true
+        · simp [he] at h
+        · simp only [he, Bool.false_eq_true, if_false] at h
+          cases hl : readLen m.isBer ((a ++ b).drop k) with
+          | none => simp [hl] at h
+          | some y =>
+            obtain ⟨len?, kl⟩ := y
+            simp only [hl] at h
+            have hkl := (readLen_bound _ _ _ _ hl).2
+            simp only [List.length_drop, List.length_append] at hkl hk
+            cases len? with
+            | some n =>
+              simp only at h
+              by_cases hn : ((a ++ b).drop (k + kl)).length < n
+              · rw [if_pos hn] at h; cases h
+              · rw [if_neg hn] at h
+                simp only [List.length_drop, List.length_append] at hn
+                have hb : b = (a ++ b).drop (k + kl + n) := by
+                  split at h
+                  · simp only [Option.some.injEq, Prod.mk.injEq, List.drop_drop] at h; exact h.2.symm
+                  · split at h
+                    · cases h
+                    · cases hp : parseAll m f (((a ++ b).drop (k + kl)).take n) with
+                      | none => simp [hp] at h
+                      | some kids =>
+                        simp only [hp, Option.some.injEq, Prod.mk.injEq, List.drop_drop] at h; exact h.2.symm
+                have hlen : k + kl + n = a.length := by
+                  have := congrArg List.length hb
+                  simp only [List.length_drop, List.length_append] at this
+                  omega
+                have hra := readIdent_of_append a b id k hr (by omega)
+                have hd1 : (a ++ b).drop k = a.drop k ++ b := List.drop_append_of_le_length (by omega)
+                rw [hd1] at hl
+                have hla := readLen_of_append _ _ _ _ _ hl (by rw [List.length_drop]; omega)
+                have hd2 : (a ++ b).drop (k + kl) = a.drop (k + kl) ++ b := List.drop_append_of_le_length (by omega)
+                have hn' : ¬ (a.drop (k + kl)).length < n := by rw [List.length_drop]; omega
+                have ht : (a.drop (k + kl) ++ b).take n = (a.drop (k + kl)).take n :=
+                  List.take_append_of_le_length (by rw [List.length_drop]; omega)
+                have hdd : (a.drop (k + kl)).drop n = [] := by
+                  apply List.drop_eq_nil_of_le; rw [List.length_drop]; omega
+                rw [hd2, ht] at h
+                simp only [parseValue, hra, he, Bool.false_eq_true, if_false, hla, hn', hdd]
+                split at h
+                · rename_i hc
+                  simp only [Option.some.injEq, Prod.mk.injEq] at h
+                  obtain ⟨rfl, _⟩ := h
+                  simp only [hc, if_true]
+                · rename_i hc
+                  simp only [hc, Bool.false_eq_true, if_false]
+                  split at h
+                  · cases h
+                  · rename_i hcer
+                    simp only [hcer, Bool.false_eq_true, if_false]
+                    cases hp : parseAll m f ((a.drop (k + kl)).take n) with
+                    | none => simp [hp] at h
+                    | some kids =>
+                      simp only [hp, Option.some.injEq, Prod.mk.injEq] at h ⊢
+                      obtain ⟨rfl, _⟩ := h
+                      exact ⟨rfl, trivial⟩
+            | none =>
+              simp only at h
+              split at h
+              · cases h
+              · rename_i hc
+                cases hp : parseUntilEoc m f ((a ++ b).drop (k + kl)) with
+                | none => simp [hp] at h
+                | some z =>
+                  obtain ⟨kids, rest'⟩ := z
+                  simp only [hp, Option.some.injEq, Prod.mk.injEq] at h
+                  obtain ⟨rfl, rfl⟩ := h
+                  obtain ⟨n2, hn2, hr2⟩ := (C02.suffix_lemma m f).2 _ _ _ hp
+                  have hlen : k + kl + n2 = a.length := by
+                    have := congrArg List.length hr2
+                    simp only [List.length_drop, List.length_append] at this hn2
+                    omega
+                  have hra := readIdent_of_append a rest' id k hr (by omega)
+                  have hd1 : (a ++ rest').drop k = a.drop k ++ rest' := List.drop_append_of_le_length (by omega)
+                  rw [hd1] at hl
+                  have hla := readLen_of_append _ _ _ _ _ hl (by rw [List.length_drop]; omega)
+                  have hd2 : (a ++ rest').drop (k + kl) = a.drop (k + kl) ++ rest' := List.drop_append_of_le_length (by omega)
+                  rw [hd2] at hp
+                  simp only [parseValue, hra, he, Bool.false_eq_true, if_false, hla, hc, ihE _ _ _ hp]
+    · intro a b ts h
+      simp only [parseUntilEoc] at h
+      cases hr : readIdent (a ++ b) with
+      | none => simp [hr] at h
+      | some x =>
+        obtain ⟨id, k⟩ := x
+        simp only [hr] at h
+        have hk := C02.readIdent_le _ id k hr
+        by_cases he : isEocIdent id = true
+        · simp only [he, if_true] at h
+          split at h
+          · cases h
+          · rename_i hc
+            cases hl : readLen m.isBer ((a ++ b).drop k) with
+            | none => simp [hl] at h
+            | some y =>
+              obtain ⟨len?, kl⟩ := y
+              simp only [hl] at h
+              have hkl := (readLen_bound _ _ _ _ hl).2
+              simp only [List.length_drop, List.length_append] at hkl hk
+              split at h
+              · rename_i kl' heq
+                simp only [Option.some.injEq, Prod.mk.injEq] at heq h
+                obtain ⟨rfl, rfl⟩ := heq
+                obtain ⟨rfl, hb⟩ := h
+                have hlen : k + kl = a.length := by
+                  have := congrArg List.length hb
+                  simp only [List.length_drop, List.length_append] at this
+                  omega
+                have hra := readIdent_of_append a b id k hr (by omega)
+                have hd1 : (a ++ b).drop k = a.drop k ++ b := List.drop_append_of_le_length (by omega)
+                rw [hd1] at hl
+                have hla := readLen_of_append _ _ _ _ _ hl (by rw [List.length_drop]; omega)
+                have hdd : a.drop (k + kl) = [] := List.drop_eq_nil_of_le (by omega)
+                simp only [parseUntilEoc, hra, he, if_true, hc, Bool.false_eq_true, if_false, hla, hdd]
+              · cases h
+        · simp only [he, Bool.false_eq_true, if_false] at h
+          cases hp : parseValue m f (a ++ b) with
+          | none => simp [hp] at h
+          | some z =>
+            obtain ⟨t, rest1⟩ := z
+            simp only [hp] at h
+            cases hq : parseUntilEoc m f rest1 with
+            | none => simp [hq] at h
+            | some w =>
+              obtain ⟨ts', rest2⟩ := w
+              simp only [hq, Option.some.injEq, Prod.mk.injEq] at h
+              obtain ⟨rfl, rfl⟩ := h
+              obtain ⟨n1, hn1, hr1⟩ := (C02.suffix_lemma m f).1 _ _ _ hp
+              obtain ⟨n2, hn2, hr2⟩ := (C02.suffix_lemma m f).2 _ _ _ hq
+              have hlen : n1 + n2 = a.length := by
+                have := congrArg List.length hr2
+                rw [hr1] at this hn2
+                simp only [List.length_drop, List.length_append] at this hn2 hn1
+                omega
+              have hr1' : rest1 = a.drop n1 ++ rest2 := by
+                rw [hr1]; exact List.drop_append_of_le_length (by omega)
+              have hsplit : a ++ rest2 = a.take n1 ++ (a.drop n1 ++ rest2) := by
+                rw [← List.append_assoc, List.take_append_drop]
+              rw [hsplit, hr1'] at hp
+              have hv1 := ihV _ _ _ hp
+              have hv2 := (parse_ext m f).1 _ (a.drop n1) _ _ hv1
+              rw [List.take_append_drop, List.nil_append] at hv2
+              rw [hr1'] at hq
+              have he2 := ihE _ _ _ hq
+              obtain ⟨id', k', hri', _⟩ := C10.parseValue_ident _ _ _ _ hv2
+              have := C16.readIdent_append a rest2 id' k' hri'
+              rw [hr] at this
+              simp only [Option.some.injEq, Prod.mk.injEq] at this
+              obtain ⟨rfl, rfl⟩ := this
+              simp only [parseUntilEoc, hri', he, Bool.false_eq_true, if_false, hv2, he2]
+
+/-- values followed by end-of-contents that end the input are not a plain sequence of values -/
+theorem parseAll_none_of_untilEoc (m : M) : ∀ (f : Nat) (v : Bytes) (ts : List Tree) (rest : Bytes),
+    parseUntilEoc m f v = some (ts, rest) → parseAll m f v = none := by
+  intro f
+  induction f with
+  | zero => intro v ts rest h; simp [parseUntilEoc] at h
+  | succ f ih =>
+    intro v ts rest h
+    simp only [parseUntilEoc] at h
+    cases hr : readIdent v with
+    | none => simp [hr] at h
+    | some x =>
+      obtain ⟨id, k⟩ := x
+      simp only [hr] at h
+      have hne : v.isEmpty = false := by
+        cases v with
+        | nil => simp [readIdent] at hr
+        | cons _ _ => rfl
+      rw [parseAll]
+      simp only [hne, Bool.false_eq_true, if_false]
+      by_cases he : isEocIdent id = true
+      · have : parseValue m f v = none := by
+          cases f with
+          | zero => rfl
+          | succ f' => simp only [parseValue, hr, he, if_true]
+        simp only [this]
+      · simp only [he, Bool.false_eq_true, if_false] at h
+        cases hp : parseValue m f v with
+        | none => rfl
+        | some z =>
+          obtain ⟨t, rest1⟩ := z
+          simp only [hp] at h
+          cases hq : parseUntilEoc m f rest1 with
+          | none => simp [hq] at h
+          | some w =>
+            obtain ⟨ts', rest2⟩ := w
+            simp only [ih _ _ _ hq, Option.map]
+
+/-! ## 4. `OctetString::from_content` on a constructed value in BER -/
+
+/-- the `Constructed` of a definite-length constructed value in BER (source `St d (some l)`) -/
+abbrev cD : Cons := ⟨.definite, .ber⟩
+/-- … of an indefinite-length one (any source without open capture) -/
+abbrev cI : Cons := ⟨.indefinite, .ber⟩
+/-- … after its end-of-contents octets have been read -/
+abbrev cE : Cons := ⟨.done, .ber⟩
+
+/-- the loop budget given by `from_content`'s `fuel`: it covers the headers of every value (the
+    budget of one `skip_opt`) and exceeds the number of values (the rounds of the `while`) -/
+def Budget (fuel : Nat) (ts : List Tree) : Prop := (∀ t ∈ ts, hdrs t ≤ fuel) ∧ ts.length < fuel
+
+instance (fuel : Nat) (ts : List Tree) : Decidable (Budget fuel ts) := by unfold Budget; exact inferInstance
+
+theorem hdrsL_mem : ∀ (ts : List Tree) (t : Tree), t ∈ ts → hdrs t ≤ hdrsL ts := by
+  intro ts
+  induction ts with
+  | nil => intro t h; simp at h
+  | cons x xs ih =>
+    intro t h
+    simp only [List.mem_cons] at h
+    simp only [hdrsL]
+    rcases h with rfl | h
+    · omega
+    · have := ih t h; omega
+
+theorem length_le_hdrsL : ∀ (ts : List Tree), ts.length ≤ hdrsL ts := by
+  intro ts
+  induction ts with
+  | nil => simp [hdrsL]
+  | cons x xs ih => have := C10.hdrs_pos x; simp only [hdrsL, List.length_cons]; omega
+
+/-- a budget that always suffices: more than the total number of headers -/
+theorem budget_of_hdrsL (fuel : Nat) (ts : List Tree) (h : hdrsL ts < fuel) : Budget fuel ts :=
+  ⟨fun t ht => by have := hdrsL_mem ts t ht; omega, by have := length_le_hdrsL ts; omega⟩
+
+/-- `from_content` in BER = `capture` around the loop, by `C16.capture_run0` -/
+theorem fromContent_run (fuel : Nat) (st : CState) (d : Bytes) (lo : Option Nat) :
+    runG0 (OS.fromContent fuel (.cons ⟨st, .ber⟩)) (St d lo) =
+      match runG0 (OS.berLoop ⟨st, .ber⟩ fuel fuel) (St d lo) with
+      | .error e => .error e
+      | .ok (c', g') =>
+        match lo with
+        | some lim =>
+          if lim < d.length - g'.data.length then .error (.panic "advanced past end of limit")
+          else .ok ((.cons (d.take (d.length - g'.data.length)), .cons ⟨c'.state, .ber⟩),
+                  St g'.data (some (lim - (d.length - g'.data.length))))
+        | none => .ok ((.cons (d.take (d.length - g'.data.length)), .cons ⟨c'.state, .ber⟩), St g'.data none) := by
+  have hfc : OS.fromContent fuel (.cons ⟨st, .ber⟩) =
+      (do let (os, c') ← OS.takeConstructedBer ⟨st, .ber⟩ fuel; pure (os, Content.cons c')) := rfl
+  rw [hfc]
+  unfold OS.takeConstructedBer
+  simp only [runG0_bind, C16.capture_run0 ⟨st, .ber⟩ _ (fun c => C16.nocap_berLoop fuel fuel c)]
+  cases runG0 (OS.berLoop ⟨st, .ber⟩ fuel fuel) (St d lo) with
+  | error e => rfl
+  | ok r =>
+    obtain ⟨c', g'⟩ := r
+    cases lo with
+    | none => rfl
+    | some lim =>
+      simp only
+      by_cases hl : lim < d.length - g'.data.length
+      · simp only [hl, if_true]
+      · simp only [hl, if_false, runG0_pure]
+
+/-- the framework's exhaustion check after a successful `from_content` finds nothing to complain
+    about: the loop only stops at the end of the content -/
+theorem checked_of_ok (fuel : Nat) (c : Cons) (g : G0) (os : OS) (c' : Cons) (g' : G0)
+    (h : runG0 (OS.fromContent fuel (.cons c)) g = .ok ((os, .cons c'), g'))
+    (hx : c'.state = .done ∨ (c'.state = .definite ∧ ∃ d, g' = St d (some 0))) :
+    runG0 (fromContentChecked fuel (.cons c)) g = .ok ((os, .cons c'), g') := by
+  unfold fromContentChecked
+  simp only [runG0_bind, h, Content.exhausted, Cons.exhausted]
+  rcases hx with hx | ⟨hx, d, rfl⟩
+  · simp only [hx, runG0_pure]
+  · simp only [hx, run_limitedExhausted, runG0_pure, if_true]
+
+theorem checked_of_err (fuel : Nat) (c : Cons) (g : G0) (e : Err)
+    (h : runG0 (OS.fromContent fuel (.cons c)) g = .error e) :
+    runG0 (fromContentChecked fuel (.cons c)) g = .error e := by
+  unfold fromContentChecked
+  simp only [runG0_bind, h]
+
+theorem checked_ok_inv (fuel : Nat) (c : Content) (g : G0) (r : (OS × Content) × G0)
+    (h : runG0 (fromContentChecked fuel c) g = .ok r) :
+    ∃ g1, runG0 (OS.fromContent fuel c) g = .ok (r.1, g1) := by
+  unfold fromContentChecked at h
+  simp only [runG0_bind] at h
+  cases hr : runG0 (OS.fromContent fuel c) g with
+  | error e => rw [hr] at h; cases h
+  | ok x =>
+    obtain ⟨a, g1⟩ := x
+    rw [hr] at h
+    simp only at h
+    cases hx : runG0 a.2.exhausted g1 with
+    | error e => rw [hx] at h; cases h
+    | ok y =>
+      rw [hx] at h
+      simp only [runG0_pure, Except.ok.injEq] at h
+      exact ⟨g1, by rw [← h]⟩
+
+/-! ### definite length -/
+
+theorem ber_def_fc (fuel : Nat) (d : Bytes) (l : Nat) (f : Nat) (ts : List Tree) (hle : l ≤ d.length)
+    (hp : parseAll .ber f (d.take l) = some ts) (hb : Budget fuel ts) :
+    runG0 (OS.fromContent fuel (.cons cD)) (St d (some l)) =
+      if allOSL ts = true then .ok ((.cons (d.take l), .cons cD), St (d.drop l) (some 0))
+      else .error .content := by
+  have hloop := berLoop_def f .ber (St d (some l)) l fuel fuel ts rfl rfl hle hp hb.1 (by have := hb.2; omega) hb.2
+  have hrun := fromContent_run fuel .definite d (some l)
+  rw [hloop] at hrun
+  by_cases ha : allOSL ts = true
+  · simp only [ha, if_true] at hrun ⊢
+    have hk : d.length - (d.drop l).length = l := by rw [List.length_drop]; omega
+    simp only [hk, Nat.lt_irrefl, if_false, Nat.sub_self] at hrun
+    exact hrun
+  · simp only [ha, Bool.false_eq_true, if_false] at hrun ⊢
+    exact hrun
+
+/-- **C16 (BER, constructed, definite length — closed form on well-formed content).**  If the `l`
+    content octets are there and are, by the BER grammar, the values `ts`, then `from_content`
+    followed by the framework's exhaustion check (with a budget covering `ts`) succeeds exactly
+    when every value in `ts`, at every depth, is an OCTET STRING; the value then holds exactly the
+    `l` content octets, the source is left at the end of the content (limit 0) and the
+    `Constructed` is unchanged.  A foreign tag anywhere inside is a content error. -/
+theorem ber_def_run (fuel : Nat) (d : Bytes) (l : Nat) (f : Nat) (ts : List Tree) (hle : l ≤ d.length)
+    (hp : parseAll .ber f (d.take l) = some ts) (hb : Budget fuel ts) :
+    runG0 (fromContentChecked fuel (.cons cD)) (St d (some l)) =
+      if allOSL ts = true then .ok ((.cons (d.take l), .cons cD), St (d.drop l) (some 0))
+      else .error .content := by
+  have hfc := ber_def_fc fuel d l f ts hle hp hb
+  by_cases ha : allOSL ts = true
+  · simp only [ha, if_true] at hfc ⊢
+    exact checked_of_ok _ _ _ _ _ _ hfc (Or.inr ⟨rfl, _, rfl⟩)
+  · simp only [ha, Bool.false_eq_true, if_false] at hfc ⊢
+    exact checked_of_err _ _ _ _ hfc
+
+theorem specAll_def_inv (m : Mode) (d : Bytes) (l f : Nat) (ts : List Tree) (c' : Cons) (g' : G0)
+    (h : specAll ⟨.definite, m⟩ f (St d (some l)) = some ((ts, c'), g')) :
+    l ≤ d.length ∧ parseAll (toM m) f (d.take l) = some ts ∧ c' = ⟨.definite, m⟩ ∧ g' = St (d.drop l) (some 0) := by
+  unfold specAll at h
+  simp only at h
+  by_cases hle : l ≤ d.length
+  · simp only [hle, if_true] at h
+    cases hp : parseAll (toM m) f (St d (some l)).view with
+    | none => simp [hp] at h
+    | some ts' =>
+      simp only [hp, Option.map, Option.some.injEq, Prod.mk.injEq] at h
+      obtain ⟨⟨rfl, rfl⟩, rfl⟩ := h
+      exact ⟨hle, hp, rfl, rfl⟩
+  · simp [hle] at h
+
+theorem ber_def_fc_inv (fuel : Nat) (d : Bytes) (l : Nat) (r : OS × Content) (g1 : G0)
+    (h1 : runG0 (OS.fromContent fuel (.cons cD)) (St d (some l)) = .ok (r, g1)) :
+    l ≤ d.length ∧ ∃ f ts, parseAll .ber f (d.take l) = some ts ∧ allOSL ts = true ∧ Budget fuel ts ∧
+      r = (.cons (d.take l), .cons cD) ∧ g1 = St (d.drop l) (some 0) := by
+  have hrun := fromContent_run fuel .definite d (some l)
+  rw [h1] at hrun
+  cases hloop : runG0 (OS.berLoop ⟨.definite, .ber⟩ fuel fuel) (St d (some l)) with
+  | error e => rw [hloop] at hrun; cases hrun
+  | ok x =>
+    obtain ⟨c', g2⟩ := x
+    obtain ⟨f, ts, hsp, hall, hI, hN⟩ := berLoop_inv fuel fuel _ _ _ _ rfl hloop
+    obtain ⟨hle, hp, rfl, rfl⟩ := specAll_def_inv _ _ _ _ _ _ _ hsp
+    refine ⟨hle, f, ts, hp, hall, ⟨hI, hN⟩, ?_⟩
+    have := ber_def_fc fuel d l f ts hle hp ⟨hI, hN⟩
+    rw [h1, if_pos hall] at this
+    simp only [Except.ok.injEq, Prod.mk.injEq] at this
+    exact ⟨this.1, this.2⟩
+
+/-- **C16 (BER, constructed, definite length — only those).**  Whatever `from_content` accepts has
+    that shape: the content octets are all there and are a sequence of values that are OCTET STRINGs
+    at every depth; the value holds exactly these octets; the budget sufficed. -/
+theorem ber_def_accept_inv (fuel : Nat) (d : Bytes) (l : Nat) (os : OS) (ct : Content) (g' : G0)
+    (h : runG0 (fromContentChecked fuel (.cons cD)) (St d (some l)) = .ok ((os, ct), g')) :
+    l ≤ d.length ∧ ∃ f ts, parseAll .ber f (d.take l) = some ts ∧ allOSL ts = true ∧ Budget fuel ts ∧
+      os = .cons (d.take l) ∧ ct = .cons cD ∧ g' = St (d.drop l) (some 0) := by
+  obtain ⟨g1, h1⟩ := checked_ok_inv _ _ _ _ h
+  obtain ⟨hle, f, ts, hp, hall, hb, _, _⟩ := ber_def_fc_inv fuel d l _ g1 h1
+  refine ⟨hle, f, ts, hp, hall, hb, ?_⟩
+  have := ber_def_run fuel d l f ts hle hp hb
+  rw [h, if_pos hall] at this
+  simp only [Except.ok.injEq, Prod.mk.injEq] at this
+  exact ⟨this.1.1, this.1.2, this.2⟩
+
+/-- **C16 (BER, constructed, definite length) as an equivalence.** -/
+theorem ber_def_accept_iff (fuel : Nat) (d : Bytes) (l : Nat) :
+    (∃ r, runG0 (fromContentChecked fuel (.cons cD)) (St d (some l)) = .ok r) ↔
+      l ≤ d.length ∧ ∃ f ts, parseAll .ber f (d.take l) = some ts ∧ allOSL ts = true ∧ Budget fuel ts := by
+  constructor
+  · rintro ⟨⟨⟨os, ct⟩, g'⟩, h⟩
+    obtain ⟨hle, f, ts, hp, ha, hb, _⟩ := ber_def_accept_inv fuel d l os ct g' h
+    exact ⟨hle, f, ts, hp, ha, hb⟩
+  · rintro ⟨hle, f, ts, hp, ha, hb⟩
+    exact ⟨_, by rw [ber_def_run fuel d l f ts hle hp hb, if_pos ha]⟩
+
+/-- … against the reference definitions: `Spec.osAccept .ber` (no restriction in BER) and
+    `Spec.osContent` being defined on the tree of the whole value -/
+theorem ber_def_accept_iff_spec (fuel : Nat) (d : Bytes) (l : Nat) :
+    (∃ r, runG0 (fromContentChecked fuel (.cons cD)) (St d (some l)) = .ok r) ↔
+      l ≤ d.length ∧ ∃ f ts, parseAll .ber f (d.take l) = some ts ∧
+        osAccept .ber (.cons C16.cOS false ts) = true ∧ osContent 4 (f + 1) (.cons C16.cOS false ts) ≠ none ∧
+        Budget fuel ts := by
+  rw [ber_def_accept_iff]
+  constructor
+  · rintro ⟨hle, f, ts, hp, ha, hb⟩
+    exact ⟨hle, f, ts, hp, rfl, (allOSL_iff_osContent .ber f _ ts false (Or.inl hp)).mp ha, hb⟩
+  · rintro ⟨hle, f, ts, hp, _, hc, hb⟩
+    exact ⟨hle, f, ts, hp, (allOSL_iff_osContent .ber f _ ts false (Or.inl hp)).mpr hc, hb⟩
+
+/-! ### indefinite length -/
+
+theorem ber_indef_fc (fuel : Nat) (d : Bytes) (lo : Option Nat) (f : Nat) (ts : List Tree) (rest : Bytes)
+    (hp : parseUntilEoc .ber f (St d lo).view = some (ts, rest)) (hb : Budget fuel ts) :
+    runG0 (OS.fromContent fuel (.cons cI)) (St d lo) =
+      if allOSL ts = true then
+        .ok ((.cons (d.take ((St d lo).view.length - rest.length)), .cons cE),
+          St (d.drop ((St d lo).view.length - rest.length)) (lo.map (· - ((St d lo).view.length - rest.length))))
+      else .error .content := by
+  have hloop := berLoop_indef f .ber (St d lo) fuel fuel ts rest rfl hp hb.1 (by have := hb.2; omega) hb.2
+  have hrun := fromContent_run fuel .indefinite d lo
+  rw [hloop] at hrun
+  have hvd := (St d lo).view_length_le
+  generalize hn : (St d lo).view.length - rest.length = n at hrun ⊢
+  have hnv : n ≤ (St d lo).view.length := by omega
+  by_cases ha : allOSL ts = true
+  · simp only [ha, if_true] at hrun ⊢
+    have hk : d.length - ((St d lo).adv n).data.length = n := by
+      show d.length - (d.drop n).length = n
+      have : n ≤ d.length := Nat.le_trans hnv hvd
+      rw [List.length_drop]; omega
+    simp only [hk] at hrun
+    rw [hrun]
+    cases lo with
+    | none => rfl
+    | some lim =>
+      have := view_le_limit (St d (some lim)) lim rfl
+      have hl : ¬ lim < n := by omega
+      simp only [hl, if_false]
+      rfl
+  · simp only [ha, Bool.false_eq_true, if_false] at hrun ⊢
+    exact hrun
+
+/-- **C16 (BER, constructed, indefinite length — closed form on well-formed content).**  On any
+    source without open capture (limited or not): if what is in view is, by the BER grammar, the
+    values `ts` followed by the end-of-contents octets (and then `rest`), `from_content` followed
+    by the exhaustion check succeeds exactly when every value in `ts`, at every depth, is an OCTET
+    STRING.  The source is then left behind the end-of-contents octets, the `Constructed` is
+    `done`, and the value holds exactly the octets advanced over — THE END-OF-CONTENTS OCTETS
+    INCLUDED (known finding D12; see `ber_indef_captured`).  A foreign tag anywhere inside is a
+    content error. -/
+theorem ber_indef_run (fuel : Nat) (d : Bytes) (lo : Option Nat) (f : Nat) (ts : List Tree) (rest : Bytes)
+    (hp : parseUntilEoc .ber f (St d lo).view = some (ts, rest)) (hb : Budget fuel ts) :
+    runG0 (fromContentChecked fuel (.cons cI)) (St d lo) =
+      if allOSL ts = true then
+        .ok ((.cons (d.take ((St d lo).view.length - rest.length)), .cons cE),
+          St (d.drop ((St d lo).view.length - rest.length)) (lo.map (· - ((St d lo).view.length - rest.length))))
+      else .error .content := by
+  have hfc := ber_indef_fc fuel d lo f ts rest hp hb
+  by_cases ha : allOSL ts = true
+  · simp only [ha, if_true] at hfc ⊢
+    exact checked_of_ok _ _ _ _ _ _ hfc (Or.inl rfl)
+  · simp only [ha, Bool.false_eq_true, if_false] at hfc ⊢
+    exact checked_of_err _ _ _ _ hfc
+
+theorem specAll_indef_inv (m : Mode) (g : G0) (f : Nat) (ts : List Tree) (c' : Cons) (g' : G0)
+    (h : specAll ⟨.indefinite, m⟩ f g = some ((ts, c'), g')) :
+    ∃ rest, parseUntilEoc (toM m) f g.view = some (ts, rest) ∧ c' = ⟨.done, m⟩ ∧
+      g' = g.adv (g.view.length - rest.length) := by
+  unfold specAll at h
+  simp only at h
+  cases hp : parseUntilEoc (toM m) f g.view with
+  | none => simp [hp] at h
+  | some r =>
+    obtain ⟨ts', rest⟩ := r
+    simp only [hp, Option.map, Option.some.injEq, Prod.mk.injEq] at h
+    obtain ⟨⟨rfl, rfl⟩, rfl⟩ := h
+    exact ⟨rest, rfl, rfl, rfl⟩
+
+theorem ber_indef_fc_inv (fuel : Nat) (d : Bytes) (lo : Option Nat) (r : OS × Content) (g1 : G0)
+    (h1 : runG0 (OS.fromContent fuel (.cons cI)) (St d lo) = .ok (r, g1)) :
+    ∃ f ts rest, parseUntilEoc .ber f (St d lo).view = some (ts, rest) ∧ allOSL ts = true ∧ Budget fuel ts ∧
+      r = (.cons (d.take ((St d lo).view.length - rest.length)), .cons cE) ∧
+      g1 = St (d.drop ((St d lo).view.length - rest.length)) (lo.map (· - ((St d lo).view.length - rest.length))) := by
+  have hrun := fromContent_run fuel .indefinite d lo
+  rw [h1] at hrun
+  cases hloop : runG0 (OS.berLoop ⟨.indefinite, .ber⟩ fuel fuel) (St d lo) with
+  | error e => rw [hloop] at hrun; cases hrun
+  | ok x =>
+    obtain ⟨c', g2⟩ := x
+    obtain ⟨f, ts, hsp, hall, hI, hN⟩ := berLoop_inv fuel fuel _ _ _ _ rfl hloop
+    obtain ⟨rest, hp, rfl, rfl⟩ := specAll_indef_inv _ _ _ _ _ _ hsp
+    refine ⟨f, ts, rest, hp, hall, ⟨hI, hN⟩, ?_⟩
+    have := ber_indef_fc fuel d lo f ts rest hp ⟨hI, hN⟩
+    rw [h1, if_pos hall] at this
+    simp only [Except.ok.injEq, Prod.mk.injEq] at this
+    exact ⟨this.1, this.2⟩
+
+/-- **C16 (BER, constructed, indefinite length — only those).** -/
+theorem ber_indef_accept_inv (fuel : Nat) (d : Bytes) (lo : Option Nat) (os : OS) (ct : Content) (g' : G0)
+    (h : runG0 (fromContentChecked fuel (.cons cI)) (St d lo) = .ok ((os, ct), g')) :
+    ∃ f ts rest, parseUntilEoc .ber f (St d lo).view = some (ts, rest) ∧ allOSL ts = true ∧ Budget fuel ts ∧
+      os = .cons (d.take ((St d lo).view.length - rest.length)) ∧ ct = .cons cE ∧
+      g' = St (d.drop ((St d lo).view.length - rest.length)) (lo.map (· - ((St d lo).view.length - rest.length))) := by
+  obtain ⟨g1, h1⟩ := checked_ok_inv _ _ _ _ h
+  obtain ⟨f, ts, rest, hp, hall, hb, _, _⟩ := ber_indef_fc_inv fuel d lo _ g1 h1
+  refine ⟨f, ts, rest, hp, hall, hb, ?_⟩
+  have := ber_indef_run fuel d lo f ts rest hp hb
+  rw [h, if_pos hall] at this
+  simp only [Except.ok.injEq, Prod.mk.injEq] at this
+  exact ⟨this.1.1, this.1.2, this.2⟩
+
+/-- **C16 (BER, constructed, indefinite length) as an equivalence.** -/
+theorem ber_indef_accept_iff (fuel : Nat) (d : Bytes) (lo : Option Nat) :
+    (∃ r, runG0 (fromContentChecked fuel (.cons cI)) (St d lo) = .ok r) ↔
+      ∃ f ts rest, parseUntilEoc .ber f (St d lo).view = some (ts, rest) ∧ allOSL ts = true ∧ Budget fuel ts := by
+  constructor
+  · rintro ⟨⟨⟨os, ct⟩, g'⟩, h⟩
+    obtain ⟨f, ts, rest, hp, ha, hb, _⟩ := ber_indef_accept_inv fuel d lo os ct g' h
+    exact ⟨f, ts, rest, hp, ha, hb⟩
+  · rintro ⟨f, ts, rest, hp, ha, hb⟩
+    exact ⟨_, by rw [ber_indef_run fuel d lo f ts rest hp hb, if_pos ha]⟩
+
+/-- … against the reference definitions -/
+theorem ber_indef_accept_iff_spec (fuel : Nat) (d : Bytes) (lo : Option Nat) :
+    (∃ r, runG0 (fromContentChecked fuel (.cons cI)) (St d lo) = .ok r) ↔
+      ∃ f ts rest, parseUntilEoc .ber f (St d lo).view = some (ts, rest) ∧
+        osAccept .ber (.cons C16.cOS true ts) = true ∧ osContent 4 (f + 1) (.cons C16.cOS true ts) ≠ none ∧
+        Budget fuel ts := by
+  rw [ber_indef_accept_iff]
+  constructor
+  · rintro ⟨f, ts, rest, hp, ha, hb⟩
+    exact ⟨f, ts, rest, hp, rfl, (allOSL_iff_osContent .ber f _ ts true (Or.inr ⟨rest, hp⟩)).mp ha, hb⟩
+  · rintro ⟨f, ts, rest, hp, _, hc, hb⟩
+    exact ⟨f, ts, rest, hp, (allOSL_iff_osContent .ber f _ ts true (Or.inr ⟨rest, hp⟩)).mpr hc, hb⟩
 
 end Bcder.Props.C16b
